@@ -351,7 +351,7 @@ const (
 
 // ScanNumber is "*n": fscanf("%lf") of ISO C 7.19.6.2 restricted to the inputs on which every conforming reader agrees:
 // white space is skipped; a decimal numeral [+-]digits[.digits][e[+-]digits] followed by end of file or by a character
-// that cannot continue a numeral is converted; end of file before any non-blank gives EOF; a first non-blank that cannot
+// that cannot continue a numeral (a delimiter, or a sign) is converted; end of file before any non-blank gives EOF; a first non-blank that cannot
 // start a numeral is left unread and the conversion fails.  Everything else (partial numerals such as "1e" or "-",
 // hexadecimal, inf/nan, a numeral followed directly by a letter, digit separator or high byte) is Unspec.
 func ScanNumber(data []byte, pos int) (val float64, newPos int, st numStatus) {
@@ -407,7 +407,9 @@ func ScanNumber(data []byte, pos int) (val float64, newPos int, st numStatus) {
 		}
 		p = q
 	}
-	if p < len(data) && !isNumeralDelimiter(data[p]) {
+	// a sign directly after a complete numeral cannot continue it (signs only start a numeral or an exponent, and an
+	// exponent without digits was ruled out above): every reader stops there, as at a delimiter ("2024-01-15", "37+5")
+	if p < len(data) && !isNumeralDelimiter(data[p]) && data[p] != '+' && data[p] != '-' {
 		return 0, 0, numUnspec
 	}
 	if p-start > 40 {
